@@ -9,6 +9,8 @@
 package c09
 
 import (
+	"bytes"
+	"io"
 	"context"
 	"fmt"
 	"os"
@@ -34,6 +36,8 @@ const (
 	KRestart = "restart"
 	KHWM     = "hwm" // backup service acknowledges up to TXID N (relative to current: pos - N)
 	KDrop    = "drop"
+	KSnap    = "snapshot" // the oldest N+2 files are replaced by one compacted range file, the shape a
+	// late-joining replica (snapshot 1-N) or a restore from the backup service leaves behind
 )
 
 type Step struct {
@@ -67,14 +71,21 @@ func genPlan(t *rapid.T) Plan {
 			p.Steps = append(p.Steps, Step{Kind: KCommit, N: rapid.IntRange(1, 1<<16).Draw(t, "ver"), Rb: rapid.IntRange(0, 9).Draw(t, "rb") == 0})
 		case k < 12:
 			p.Steps = append(p.Steps, Step{Kind: KAge, Ages: rapid.SliceOfN(rapid.SampledFrom([]int{0, 1, 5, 10, 30, 100}), 1, 5).Draw(t, "ages")})
-		case k < 16:
+		case k < 15:
 			p.Steps = append(p.Steps, Step{Kind: KSweep, N: rapid.SampledFrom([]int{0, 1, 3, 7, 20, 60, 100000}).Draw(t, "retention")})
-		case k < 17:
+		case k < 16:
 			p.Steps = append(p.Steps, Step{Kind: KJunk, N: rapid.IntRange(0, len(junkNames)*4-1).Draw(t, "junk")})
-		case k < 18:
+		case k < 17:
 			p.Steps = append(p.Steps, Step{Kind: KRestart})
 		case k < 19:
-			p.Steps = append(p.Steps, Step{Kind: KHWM, N: rapid.IntRange(0, 6).Draw(t, "hwm")})
+			switch rapid.IntRange(0, 3).Draw(t, "which") {
+			case 0, 1:
+				p.Steps = append(p.Steps, Step{Kind: KSnap, N: rapid.IntRange(0, 4).Draw(t, "span")})
+			case 2:
+				p.Steps = append(p.Steps, Step{Kind: KHWM, N: rapid.IntRange(0, 6).Draw(t, "hwm")})
+			default: // an absolute mark (negative N): it may fall inside a range file
+				p.Steps = append(p.Steps, Step{Kind: KHWM, N: -rapid.IntRange(1, 9).Draw(t, "hwm_abs")})
+			}
 		default:
 			p.Steps = append(p.Steps, Step{Kind: KDrop})
 		}
@@ -285,9 +296,47 @@ func runPlan(c *pbt.Case, p Plan) {
 			check(i, "restart")
 		case KHWM:
 			pos := n.Pos(name)
-			if uint64(st.N) <= pos.TXID {
+			if st.N < 0 {
+				if uint64(-st.N) <= pos.TXID {
+					hwm = uint64(-st.N)
+				}
+			} else if uint64(st.N) <= pos.TXID {
 				hwm = pos.TXID - uint64(st.N)
 			}
+		case KSnap:
+			files := list()
+			k := st.N + 2
+			if len(files) < k+1 { // the newest file stays a file of its own
+				break
+			}
+			var rdrs []io.Reader
+			var newest time.Time
+			for _, f := range files[:k] {
+				fh, err := os.Open(filepath.Join(ltxDir, f.Name))
+				if err != nil {
+					c.Failf("C09/harness", "%v", err)
+				}
+				defer fh.Close()
+				if fi, err := fh.Stat(); err == nil && fi.ModTime().After(newest) {
+					newest = fi.ModTime()
+				}
+				rdrs = append(rdrs, fh)
+			}
+			var buf bytes.Buffer
+			if err := ltx.NewCompactor(&buf, rdrs).Compact(context.Background()); err != nil {
+				c.Failf("C09/harness", "compact: %v", err)
+			}
+			fn := filepath.Join(ltxDir, ltx.FormatFilename(ltxTXID(files[0].Min), ltxTXID(files[k-1].Max)))
+			if err := os.WriteFile(fn+".compacting", buf.Bytes(), 0o666); err != nil {
+				c.Failf("C09/harness", "%v", err)
+			}
+			for _, f := range files[:k] {
+				_ = os.Remove(filepath.Join(ltxDir, f.Name))
+			}
+			_ = os.Rename(fn+".compacting", fn)
+			_ = os.Chtimes(fn, newest, newest)
+			c.Label("range-file")
+			check(i, "snapshot")
 		case KDrop:
 			if model.Img.N() == 0 {
 				break
